@@ -143,12 +143,13 @@ Section Tie.
   Hypothesis digits_are_not_identifier_starts :
     forall c, is_ascii_digit c = true -> xid_start c = false.
 
-  (* the unsigned text of a structured literal is exactly one Number token *)
-  Theorem literal_is_one_number_token : forall l d, wf_lit l ->
-    scan_single_token xid_start xid_continue d (codes (show_lit true (unsigned l)))
+  (* the unsigned text of a structured literal is exactly one Number token, in any lexer
+     state (interpolation scope stack d, previous token la) *)
+  Theorem literal_is_one_number_token : forall l (d : list bool) (la : option token), wf_lit l ->
+    scan_single_token xid_start xid_continue d la (codes (show_lit true (unsigned l)))
     = LOk (Some (TNumber (codes (show_lit true (unsigned l)))), [], d).
   Proof.
-    intros l d W. rewrite (codes_unsigned l W).
+    intros l d la W. rewrite (codes_unsigned l W).
     rewrite <- (app_nil_r (pr_num (to_numlit l))) at 1.
     apply (lex_number_complete xid_start xid_continue digits_are_not_identifier_starts).
     - apply wf_to_numlit. assumption.
@@ -157,14 +158,14 @@ Section Tie.
   Qed.
 
   (* the digits of an integer are exactly one Number token *)
-  Theorem integer_is_one_number_token : forall (n : N) d,
-    scan_single_token xid_start xid_continue d (codes (show_digits (dec_digits n)))
+  Theorem integer_is_one_number_token : forall (n : N) (d : list bool) (la : option token),
+    scan_single_token xid_start xid_continue d la (codes (show_digits (dec_digits n)))
     = LOk (Some (TNumber (codes (show_digits (dec_digits n)))), [], d).
   Proof.
-    intros n d.
+    intros n d la.
     assert (W : wf_lit (mkLit false (dec_digits n) None None)).
     { repeat split; [apply dec_digits_wf|apply dec_digits_nonempty]. }
-    pose proof (literal_is_one_number_token (mkLit false (dec_digits n) None None) d W) as H.
+    pose proof (literal_is_one_number_token (mkLit false (dec_digits n) None None) d la W) as H.
     unfold unsigned, show_lit in H. cbn [l_int l_frac l_exp l_neg append] in H.
     rewrite !Proofs.append_nil_r in H. exact H.
   Qed.
